@@ -39,6 +39,7 @@ type QueuedWork struct {
 	name     string
 	priority int
 	position int
+	seq      uint64
 	state    *atomic.Int32
 }
 
